@@ -4,7 +4,7 @@
    that FindAllStringIndex returns its matches in order and inside the text. *)
 From Verif Require Import Lib.Base Lib.Dyadic Lib.Utf8 Lib.Regex Gen.Consts Model.Fields Proofs.FieldsSplit.
 
-Ltac proj := cbn [line line_true fields fields_true have nf fs fs_re saved_fs saved_re ofs rs inmode outmode].
+Ltac proj := cbn [line line_true fields fields_true have nf fs fs_re saved_fs saved_re saved_rs saved_inmode ofs rs inmode outmode].
 
 (* ---- small arithmetic / list facts ---------------------------------------- *)
 
@@ -105,7 +105,7 @@ Proof.
   intros Hre. unfold split_record.
   destruct (is_default im) eqn:Ed; cbn [negb]; [|left; reflexivity].
   right.
-  assert (exists f0, (if bytes_eqb sfs [32] then Ok (strings_fields ln)
+  assert (exists f0, (if bytes_eqb sfs [32] then Ok (split_blanks ln)
                       else if is_nil ln then Ok []
                       else if rune_count sfs <=? 1 then Ok (strings_split ln sfs)
                       else match sre with
@@ -133,7 +133,7 @@ Proof.
   - right. exists s. split; [unfold ensure_fields; rewrite Eh; reflexivity|].
     split; [exact HI|]. split; [exact Eh|]. split; [apply same_env_refl|reflexivity].
   - unfold ensure_fields. rewrite Eh.
-    destruct (split_record_ok (saved_fs rx s) (saved_re rx s) (inmode rx s) (rs rx s) (line rx s) H2) as [Hu|[fl Hfl]].
+    destruct (split_record_ok (saved_fs rx s) (saved_re rx s) (saved_inmode rx s) (saved_rs rx s) (line rx s) H2) as [Hu|[fl Hfl]].
     + left. rewrite Hu. reflexivity.
     + right. rewrite Hfl. cbn [rbind]. eexists. split; [reflexivity|].
       split; [|split; [reflexivity|split; [unfold same_env; proj; repeat split|discriminate]]].
@@ -448,7 +448,7 @@ Qed.
 
 Theorem Inv_step s o s' w : Inv s -> exec s o = Ok (s', w) -> Inv s'.
 Proof.
-  intros HI H. destruct o; cbn [exec_op] in H.
+  intros HI H. destruct o as [t|i|i t|i t|t|i f| |v|f|s0 r|o|r|m|m| ]; cbn [exec_op] in H.
   - (* ReadRecord *) injection H as <- _. apply Inv_set_line. exact HI.
   - (* GetField *)
     destruct (eval_idx rx all_matches s i) as [[s0 k]| | |] eqn:E0; cbn [rbind] in H; try discriminate.
@@ -462,6 +462,7 @@ Proof.
     destruct (eval_idx rx all_matches s i) as [[s0 k]| | |] eqn:E0; cbn [rbind] in H; try discriminate.
     destruct (setf s0 k t) as [s1| | |] eqn:E1; cbn [rbind] in H; try discriminate.
     injection H as <- _. exact (Inv_set_field _ _ _ _ (Inv_eval_idx _ _ _ _ HI E0) E1).
+  - (* GetlineVar *) injection H as <- _. exact HI.
   - (* ModField *)
     destruct (eval_idx rx all_matches s i) as [[s0 k]| | |] eqn:E0; cbn [rbind] in H; try discriminate.
     destruct (getf s0 k) as [[[s1 old] tt]| | |] eqn:E1; cbn [rbind] in H; try discriminate.
